@@ -345,4 +345,9 @@ theorem bridge_esBits : esStackFull = 1 ∧ esMaxEvalCost = 2 ∧ esStackFull &&
 /-- the `size` field widths behind `toArrSize` / `toBufSize`, and sprintf's buffer bound -/
 theorem bridge_widths : arraySizeBits = 16 ∧ bufferCastBits = 16 ∧ ushrtMax = 2 ^ 16 - 1 := by decide
 
+/-- the `(int)` cast of set_eval_limit and the `unsigned short` element count of F_AGGREGATE, as the model computes them -/
+theorem bridge_casts : intBits = 32 ∧ aggregateCountBits = 16 ∧
+    toInt32 4294967296 = 0 ∧ toInt32 2147483648 = -2147483648 ∧ toInt32 (-5) = -5 ∧
+    aggregateArray 65537 100 = .ok 1 := by decide
+
 end NV.C04
